@@ -8,7 +8,7 @@ from itertools import combinations
 import gcmpy.covers.eecc as _eecc_module
 from gcmpy.covers.eecc import EECC
 
-from .. import setseam
+from .. import setseam, interesting
 from ..engine import describe_exc
 
 setseam.install(_eecc_module)       # `set(...)` in eecc.py now builds sets whose iteration order the scheduler controls
@@ -26,7 +26,7 @@ RULE = ("seeded simple graphs without isolated vertices: clustered graphs (union
         "sticky/mix; the iteration order of the library's hash sets (unspecified by the language) natural / reversed / rotated / "
         "shuffled by the scheduler; aborts at a chosen decision then a fresh object; non-trivial = graph has >= 2 edges; distinct = "
         "distinct execution digests; thorough tier only: one clique of 1420-1500 vertices (a million edges) sharing an edge "
-        "with a triangle, m0 = order / order+7 / 2^31, exact-cover oracle only")
+        "with a triangle, and one of 2050-2300 vertices (2.1-2.6 million edges), m0 = order / order+7 / 2^31, exact-cover oracle only")
 ASSUMPTIONS = ["oracle computes adjacency and maximal cliques itself (own Bron-Kerbosch), independent of networkx find_cliques",
                "a result must arrive within 50*|E|+100 tie-break decisions (each round removes at least one edge)"]
 REAL = ["gcmpy.covers.eecc.EECC", "gcmpy.network.network.Network", "networkx find_cliques (inside the library)",
@@ -102,6 +102,9 @@ def gen_graph(prng, big):
         labels = {k: v + off for k, v in labels.items()}
     elif r < 0.08:
         labels = {k: -v - 1 for k, v in labels.items()}              # negative labels
+    elif r < 0.13:
+        ks = list(labels)
+        labels = dict(zip(ks, interesting.hash_twins(prng, [labels[k] for k in ks])))      # two vertices with equal hashes
     es = [[labels[a], labels[b]] for a, b in edges]
     es.sort()
     prng.shuffle(es)
@@ -115,6 +118,12 @@ def generate(prng, tier, index):
         # a triangle - clique scores are k / C(order, 2), so anything that rounds, caps or compares them with a
         # tolerance only shows when C(order, 2) is of the order of 1e6
         n = prng.choice((1420, 1450, 1500))
+        return {"variant": "clean", "scale": n, "edges": None, "m0": prng.choice((n, n + 7, 2 ** 31)), "policy": {},
+                "build": "add_edges_from", "set_order": "natural"}
+    if tier == "thorough" and index == 1:
+        # the same again one size class up (2.1-2.6 million edges, ~2 minutes): the previous scale run was answered by a
+        # threshold just above it.  Thresholds beyond THIS size are out of reach of the technique at this budget (DESIGN 12.1).
+        n = prng.choice((2050, 2150, 2300))
         return {"variant": "clean", "scale": n, "edges": None, "m0": prng.choice((n, n + 7, 2 ** 31)), "policy": {},
                 "build": "add_edges_from", "set_order": "natural"}
     big = tier == "thorough"
